@@ -130,10 +130,6 @@ theorem leaf_coercion {w : World} {cfg : Cfg} {t : Ty} (hl : litLeaf t = true) {
       obtain ⟨_, _, rfl⟩ := h; rfl
   case lit vs =>
     simp only [stF] at h
-    split at h
-    · rename_i hm
-      simp only [Option.some.injEq] at h; subst h
-      exact isLeafObj_of_memPy (by simpa [litLeaf] using hl) hm
-    · simp at h
+    exact isLeafObj_of_memPy (by simpa [litLeaf] using hl) (litStruct_memPy w h)
 
 end CattrsModel.Heap
